@@ -247,8 +247,7 @@ int main()
 	FIX8::GlobalLogger::set_levels(FIX8::Logger::Levels(FIX8::Logger::None));
 	vclock::skip_sleeps = true;
 	vclock::set(T0_MS * 1000000LL);
-	char tmpl[] = "/tmp/verif_sess_XXXXXX";
-	g_dir = mkdtemp(tmpl);
+	g_dir = scratch_dir("sess");
 	World w;
 	w.listen_on();
 	std::string line;
